@@ -8,6 +8,14 @@ HERE = os.path.dirname(os.path.dirname(os.path.abspath(__file__)))
 TECH = "deterministic simulation with fault injection: "
 
 CHECKS = {
+    "C03": dict(
+        level="exploration",
+        text="One plan (generated chart with planted failing elements in 20% of the runs, or one self-contained W3C IRP document for null/lua/promela) is executed with the "
+             "'large' and with the 'fast' engine (created through the Factory registration) in deterministic-history mode on the simulated clock; the per-session recorder logs "
+             "(monitor notifications, <log> output, raised and sent events, step() results, configurations) must be equal.",
+        ref="DESIGN.md 6/C03",
+        note="cache files off; differential: a defect both engines share is invisible here (C01 covers the large engine against the reference model).",
+        technique=TECH + "same simulated timed history under both micro-step engines, equality of the recorded per-session traces"),
     "C07": dict(
         level="fault_enumeration",
         text="(A) one really failing element (ill-formed / failing expression, send with unsupported type, malformed target or unknown invoke id, failing <if> condition, "
@@ -94,7 +102,6 @@ NOT_APPLICABLE = [
 
 # properties that will be claimed once their check exists; until then they are listed as not (yet) claimed
 PENDING = {
-    "C03": "not claimed yet: engine differential under construction (DESIGN.md 6/C03)",
     "C04": "not claimed yet: generated-C host under construction (DESIGN.md 6/C04)",
     "C06": "not claimed yet: spin-simulation differential under construction (DESIGN.md 6/C06)",
     "C14": "not claimed yet: snapshot/restore enumeration under construction (DESIGN.md 6/C14)",
